@@ -55,6 +55,28 @@ def is_this_obj(e):
     return o.get('k') == 'this'
 
 
+class AliasProbe:
+    """range-test recognition inside a helper function: the storage is whatever other pointer the parameter is compared with"""
+
+    def __init__(self, owner, h, hp):
+        self.owner, self.h, self.hp = owner, h, hp
+
+    def is_range(self, e):
+        e = strip(e)
+        while e.get('k') in ('paren', 'cast'):
+            e = strip(e['e'])
+        if e.get('k') == 'un' and e.get('op') == '!':
+            return self.is_range(e['e'])
+        if e.get('k') == 'bin' and e.get('op') in ('&&', '||'):
+            return self.is_range(e['x']) and self.is_range(e['y'])
+        if e.get('k') == 'bin' and e.get('op') in ('>=', '<=', '<', '>'):
+            has_p = any(w.get('k') == 'var' and w.get('id') == self.hp for w in walk_expr(e))
+            has_o = any((w.get('k') == 'var' and w.get('id') != self.hp and T(self.h, w.get('t')).get('ptr')) or (w.get('k') == 'mem' and w.get('f') in self.owner.storage) or
+                        (w.get('k') == 'call' and (w.get('pq') or '').split('::')[-1] in ('str', 'data')) for w in walk_expr(e))
+            return has_p and has_o
+        return False
+
+
 class AliasClass:
     """Descriptor + analysis for one owning class."""
 
@@ -127,6 +149,21 @@ class AliasClass:
                     changed = True
         return inv
 
+    def shift_source(self, f, e):
+        """e moves elements inside the receiver's storage (memmove / memcpy with both ends in it): the printed source start, else None.
+        Nothing is released: a pointer into the storage stays valid, it only designates the neighbouring element if it lay in the
+        moved range."""
+        if e.get('k') == 'call' and (e.get('fn') or '') in ('memmove', 'memcpy') and not e.get('clsp') and len(e.get('a', [])) == 3:
+            def rooted(a):
+                d = q.expand(f, a)
+                return any(w.get('k') == 'mem' and w.get('f') in self.storage and strip(w.get('b') or {}).get('k') == 'this' for w in walk_expr(d))
+            if rooted(e['a'][0]) and rooted(e['a'][1]):
+                x = strip(q.expand(f, e['a'][1]))
+                while x.get('k') in ('cast', 'paren'):
+                    x = strip(x['e'])
+                return pe(x)
+        return None
+
     def invalidates(self, f, e):
         """Expression node e, evaluated inside member f, may invalidate the receiver's storage."""
         if self.primitive(f, e):
@@ -156,11 +193,88 @@ class AliasClass:
         if e.get('k') == 'bin' and e.get('op') in ('&&', '||'):
             return self.is_range_test(f, e['x'], pid) and self.is_range_test(f, e['y'], pid)
         if e.get('k') == 'bin' and e.get('op') in ('>=', '<=', '<', '>'):
-            has_p = any(w.get('k') == 'var' and w.get('id') == pid for w in walk_expr(e))
-            has_s = any((w.get('k') == 'mem' and w.get('f') in self.storage) or (w.get('k') == 'var' and w.get('vk') == 'local' and T(f, w.get('t')).get('ptr')) or
+            al = self.param_pointers(f, pid)
+            has_p = any(w.get('k') == 'var' and (w.get('id') == pid or w.get('id') in al) for w in walk_expr(e))
+            has_s = any((w.get('k') == 'mem' and w.get('f') in self.storage) or (w.get('k') == 'var' and w.get('vk') == 'local' and w.get('id') not in al and T(f, w.get('t')).get('ptr')) or
                         (w.get('k') == 'call' and (w.get('pq') or '').split('::')[-1] in ('str', 'data')) for w in walk_expr(e))
             return has_p and has_s
         return False
+
+    def param_pointers(self, f, pid):
+        """pointer locals declared as `&param` (`const T* src = &x;`): a range test on such a pointer is a range test of the parameter"""
+        key = (f['q'], f['sig'], pid)
+        cache = self.__dict__.setdefault('_ppc', {})
+        if key not in cache:
+            out = set()
+            for s_ in ir.walk_stmts(f['body']):
+                if s_.get('k') == 'decl':
+                    for v in s_['vars']:
+                        x = strip(v.get('init') or {})
+                        while x.get('k') == 'cast':
+                            x = strip(x['e'])
+                        if x.get('k') == 'un' and x.get('op') == '&' and strip_lv(x['e']).get('k') == 'var' and strip_lv(x['e']).get('id') == pid:
+                            out.add(v['id'])
+            cache[key] = out
+        return cache[key]
+
+    def range_helper_polarity(self, f, e, pid):
+        """e is a call of a bool helper that tells whether the parameter points into the receiver's storage (a free function given
+        the parameter and a storage pointer, or a member given the parameter).  -> True when `true` means inside, False when
+        `true` means outside, None when e is no such call."""
+        e = strip(e) if isinstance(e, dict) else {}
+        if not (e.get('k') == 'call' and e.get('fn') and (not e.get('clsp') or (e.get('clsp') == self.cls and (e.get('obj') is None or is_this_obj(e))))):
+            return None
+        if not T(f, e.get('t')).get('bool'):
+            return None
+        args = e.get('a', [])
+        pidx = [j for j, a in enumerate(args) if any(w.get('k') == 'var' and w.get('id') == pid for w in walk_expr(a))]
+        if len(pidx) != 1:
+            return None
+        hs = [g for g in self.prog.fn(e['fn'], e.get('sig')) if g.get('body') and len(g.get('params') or []) == len(args)]
+        if not hs:
+            return None
+        h = hs[0]
+        hp = h['params'][pidx[0]]['id']
+        if not e.get('clsp') and not any((w.get('k') == 'mem' and w.get('f') in self.storage) or (w.get('k') == 'call' and (w.get('pq') or '').split('::')[-1] in ('str', 'data')) or
+                                         (w.get('k') == 'var' and w.get('vk') == 'local' and T(f, w.get('t')).get('ptr')) for a in args for w in walk_expr(a)):
+            return None
+        sub = AliasProbe(self, h, hp)
+        body = h['body']['s'] if h['body'].get('k') == 'block' else [h['body']]
+        rets = [st for st in ir.walk_stmts(h['body']) if st.get('k') == 'return' and st.get('e') is not None]
+        if len(rets) == 1 and sub.is_range(rets[0]['e']):
+            c = strip(rets[0]['e'])
+            while c.get('k') in ('paren', 'cast'):
+                c = strip(c['e'])
+            return not (c.get('k') == 'bin' and c.get('op') == '||')
+        # `if (<outside test>) return false; ...; return true;` (or the mirror image)
+        guards = [st for st in body if st.get('k') == 'if' and sub.is_range(st['c'])]
+        last = body[-1] if body else {}
+        if guards and last.get('k') == 'return' and const_val(last.get('e')) is not None:
+            return bool(const_val(last['e']))
+        return None
+
+    def offset_helper_call(self, f, si, pid):
+        """si is a call of a helper that answers where the parameter points into the receiver's storage: a free function given
+        the parameter and a storage pointer, or a member of the class given the parameter; its body compares pointers and returns
+        a negative literal on some path (index or offset, negative = does not alias)."""
+        si = strip(si) if isinstance(si, dict) else {}
+        if not (si.get('k') == 'call' and si.get('fn') and (not si.get('clsp') or (si.get('clsp') == self.cls and (si.get('obj') is None or is_this_obj(si))))):
+            return False
+        def names_param(a):
+            return any((w.get('k') == 'var' and w.get('id') == pid) for w in walk_expr(a))
+        if not any(names_param(a) for a in si.get('a', [])):
+            return False
+        member_helper = bool(si.get('clsp'))
+        refs_storage = member_helper or any((w.get('k') == 'mem' and w.get('f') in self.storage) or (w.get('k') == 'call' and (w.get('pq') or '').split('::')[-1] in ('str', 'data')) or
+                                            (w.get('k') == 'var' and w.get('vk') == 'local' and T(f, w.get('t')).get('ptr')) for a in si.get('a', []) for w in walk_expr(a))
+        helper = [g for g in self.prog.fn(si['fn'], si.get('sig')) if g.get('body')]
+        if not helper:
+            return False
+        neg = any(st.get('k') == 'return' and any((const_val(w) or 0) < 0 for w in walk_expr(st.get('e') or {}) if w.get('k') in ('int', 'un', 'cast', 'paren')) for st in ir.walk_stmts(helper[0]['body']))
+        cmpb = any(w.get('k') == 'bin' and w.get('op') in ('<', '>', '<=', '>=') for w in fn_exprs(helper[0]))
+        if member_helper:
+            refs_storage = any((w.get('k') == 'mem' and w.get('f') in self.storage) or (w.get('k') == 'call' and (w.get('pq') or '').split('::')[-1] in ('str', 'data')) for w in fn_exprs(helper[0]))
+        return bool(refs_storage and neg and cmpb)
 
     def alias_vars(self, f, pid):
         """Locals that record whether / where the parameter points into the receiver's storage, computed before any invalidation:
@@ -183,17 +297,8 @@ class AliasClass:
                 si = strip(ini)
                 if si.get('k') == 'cond' and (self.is_range_test(f, si['c'], pid) or self.is_range_test(f, q.expand(f, si['c'], bools_only=True), pid)):
                     out.add(v['id'])
-                elif si.get('k') == 'call' and si.get('fn') and (not si.get('clsp') or (si.get('clsp') == self.cls and (si.get('obj') is None or is_this_obj(si)))):
-                    member_helper = bool(si.get('clsp'))
-                    refs_storage = member_helper or any((w.get('k') == 'mem' and w.get('f') in self.storage) or (w.get('k') == 'call' and (w.get('pq') or '').split('::')[-1] in ('str', 'data')) or
-                                       (w.get('k') == 'var' and w.get('vk') == 'local' and T(f, w.get('t')).get('ptr')) for a in si.get('a', []) for w in walk_expr(a))
-                    helper = [g for g in self.prog.fn(si['fn'], si.get('sig')) if g.get('body')]
-                    neg = helper and any(st.get('k') == 'return' and (const_val(st.get('e')) or 0) < 0 for st in ir.walk_stmts(helper[0]['body']))
-                    cmpb = helper and any(w.get('k') == 'bin' and w.get('op') in ('<', '>', '<=', '>=') for w in fn_exprs(helper[0]))
-                    if member_helper and helper:
-                        refs_storage = any((w.get('k') == 'mem' and w.get('f') in self.storage) or (w.get('k') == 'call' and (w.get('pq') or '').split('::')[-1] in ('str', 'data')) for w in fn_exprs(helper[0]))
-                    if refs_storage and neg and cmpb:
-                        out.add(v['id'])
+                elif self.offset_helper_call(f, si, pid):
+                    out.add(v['id'])
         return out
 
     def analyse_member(self, f, pidx, callee_summaries):
@@ -247,7 +352,7 @@ class AliasClass:
             k = e.get('k')
             if n.kind == 'ev':
                 if reads_param(e):
-                    if st == 'stale' and e.get('l') not in seen:
+                    if (st == 'stale' or st.startswith('shift')) and e.get('l') not in seen:
                         seen.add(e.get('l'))
                         problems.append((e.get('l', 0), 'parameter `%s` is used after the receiver\'s storage may have been released or moved' % p['n']))
                     return state
@@ -255,12 +360,12 @@ class AliasClass:
                     base = strip(e['e'] if k == 'un' else e['b'])
                     while base.get('k') == 'cast':
                         base = strip(base['e'])
-                    if base.get('k') == 'var' and base.get('id') in taint and st == 'stale' and e.get('l') not in seen:
+                    if base.get('k') == 'var' and base.get('id') in taint and (st == 'stale' or st.startswith('shift')) and e.get('l') not in seen:
                         seen.add(e.get('l'))
                         problems.append((e.get('l', 0), 'parameter `%s` is used (through the pointer `%s`) after the receiver\'s storage may have been released or moved' % (p['n'], base.get('n'))))
                     return state
                 if k == 'bin' and e.get('op') == '=' and strip_lv(e['x']).get('k') == 'var' and strip_lv(e['x']).get('id') == pid:
-                    return ('fresh' if st == 'stale' else st, taint)     # re-based
+                    return ('fresh' if (st == 'stale' or st.startswith('shift')) else st, taint)     # re-based
                 if k == 'bin' and e.get('op') == '=' and strip_lv(e['x']).get('k') == 'var' and T(f, strip_lv(e['x']).get('t')).get('ptr'):
                     vid = strip_lv(e['x'])['id']
                     if is_addr_of_param(e['y']):
@@ -269,6 +374,9 @@ class AliasClass:
                         return (st, taint - frozenset([vid]))
                     return state
                 if k == 'un' and e.get('op') in ('pre++', 'post++', 'pre--', 'post--'):
+                    t_ = strip_lv(e['e'])
+                    if st.startswith('shifthit:') and e['op'] in ('pre++', 'post++') and t_.get('k') == 'var' and (t_.get('id') in taint or t_.get('id') == pid):
+                        return ('fresh', taint)         # the pointer follows its element into the slot it was moved to
                     return state
                 if k == 'call':
                     # forwarding an argument derived from the parameter to a callee that is unsafe for that position
@@ -280,7 +388,12 @@ class AliasClass:
                                 seen.add((e.get('l'), key))
                                 problems.append((e.get('l', 0), 'argument derived from `%s` is forwarded to %s, which uses it after invalidating the same storage' % (p['n'], key)))
                 if self.invalidates(f, e):
-                    return ('stale' if st == 'fresh' else st, taint)
+                    sh = self.shift_source(f, e)
+                    if sh is not None and st == 'fresh':
+                        return ('shifted:' + sh, taint)
+                    if st == 'fresh' or st.startswith('shift'):
+                        return ('stale', taint)
+                    return (st, taint)
             return state
 
         def edge(n, lab, state):
@@ -297,17 +410,48 @@ class AliasClass:
             while c.get('k') == 'un' and c.get('op') == '!':
                 c = strip(c['e'])
                 neg = not neg
+            if st.startswith('shifted:') and c.get('k') == 'bin' and c.get('op') in ('<', '>='):
+                al_ = self.param_pointers(f, pid)
+                lx, ly = strip(c['x']), strip(c['y'])
+                if lx.get('k') == 'var' and (lx.get('id') in al_ or lx.get('id') == pid):
+                    by = strip(q.expand(f, c['y']))
+                    while by.get('k') in ('cast', 'paren'):
+                        by = strip(by['e'])
+                    if pe(by) == st[len('shifted:'):]:
+                        in_tail = (lab == (c['op'] == '>=')) != neg
+                        return ('shifthit:' + st[len('shifted:'):]) if in_tail else 'fresh'
+            pol_ = self.range_helper_polarity(f, c, pid)
+            if pol_ is not None:
+                inside_truth = pol_ != neg
+                if lab != inside_truth:
+                    return 'safe'
+                return st
             if self.is_range_test(f, c, pid):
-                noalias = True if neg else False
+                # `p >= lo && p <= hi` is true inside the storage; `p < lo || p > hi` (its De Morgan form) is true outside.  The
+                # CFG hands over the single comparisons of such a test one by one: which truth value means "outside" follows from
+                # the side of the range the comparison looks at (lo = the storage pointer, hi = storage pointer + length)
+                outside_form = c.get('k') == 'bin' and c.get('op') == '||'
+                if c.get('k') == 'bin' and c.get('op') in ('<', '>', '<=', '>='):
+                    px = any(w.get('k') == 'var' and w.get('id') == pid for w in walk_expr(c['x']))
+                    other = q.expand(f, c['y'] if px else c['x'])
+                    op_ = c['op'] if px else {'<': '>', '>': '<', '<=': '>=', '>=': '<='}[c['op']]
+                    hi = any(w.get('k') == 'bin' and w.get('op') == '+' for w in walk_expr(other))
+                    if (not hi and op_ == '<') or (hi and op_ in ('>', '>=')):
+                        outside_form = True             # true means outside
+                    elif (not hi and op_ == '>=') or (hi and op_ in ('<', '<=')):
+                        outside_form = False            # false means outside
+                    else:
+                        return st
+                noalias = (True if neg else False) != outside_form
                 if lab == noalias:
                     return 'safe'
                 return st
-            if c.get('k') == 'bin' and c.get('op') in ('<', '>=', '>', '<=', '==', '!=') and avars:
+            if c.get('k') == 'bin' and c.get('op') in ('<', '>=', '>', '<=', '==', '!='):
                 x, y = strip(c['x']), strip(c['y'])
                 v = None
-                if x.get('k') == 'var' and x.get('id') in avars and const_val(c['y']) is not None:
+                if ((x.get('k') == 'var' and x.get('id') in avars) or self.offset_helper_call(f, x, pid)) and const_val(c['y']) is not None:
                     v, cst, op = x, const_val(c['y']), c['op']
-                elif y.get('k') == 'var' and y.get('id') in avars and const_val(c['x']) is not None:
+                elif ((y.get('k') == 'var' and y.get('id') in avars) or self.offset_helper_call(f, y, pid)) and const_val(c['x']) is not None:
                     v, cst, op = y, const_val(c['x']), {'<': '>', '>': '<', '<=': '>=', '>=': '<='}.get(c['op'], c['op'])
                 if v is not None:
                     def ev(val):
